@@ -61,6 +61,11 @@ func (p Parser) HandleRawSQLQuery(sql string) (normalizedQuery, redactedQuery st
 	if err != nil {
 		return "", "", nil, ErrQuerySyntaxError
 	}
+	if _, ok := stmt.(NotParsedStatement); ok {
+		// ModeDefault: Parse tolerates the syntax error and hands out the raw text of the statement. There is
+		// nothing to normalize and no values were hidden in it, so it must not be returned as redacted query
+		return "", "", nil, ErrQuerySyntaxError
+	}
 	outputStmt, _ := p.Parse(sqlStripped)
 
 	normalizedQ := String(stmt)
